@@ -49,7 +49,8 @@ class ZygoteSet:
         env["VERIF_REPO"] = str(core.REPO)
         stderr = None if os.environ.get("VERIF_DEBUG") else subprocess.DEVNULL
         proc = subprocess.Popen(
-            [core.PYTHON, "-m", "simverif.zygote", self.profile, "HU" if cfg.startswith("HU") else cfg],
+            [*core.no_aslr_prefix(), core.PYTHON, "-m", "simverif.zygote", self.profile,
+             "HU" if cfg.startswith("HU") else cfg],
             stdin=subprocess.PIPE, stdout=subprocess.PIPE, stderr=stderr,
             env=env, cwd=str(core.VERIF), text=True, bufsize=1,
         )
@@ -347,6 +348,7 @@ def _report(check, prop, tier, seed_, records, extras, harness_errors, watch, op
     coverage["known_findings_seen"] = sorted(listed)
     coverage["check_version"] = CHECK_VERSION
     coverage["tree_fingerprint"] = options.get("tree_fingerprint")
+    coverage["address_space_randomisation_disabled_for_simulated_processes"] = bool(core.no_aslr_prefix())
     if options.get("tree_fingerprint") and options["tree_fingerprint"] != tree_fingerprint():
         harness_errors.append(f"sources under {core.REPO}/src changed while the check was running")
     coverage["determinism_recheck"] = {"runs_re_executed_under_other_worker_assignment": options.get("rechecked_runs", 0),
